@@ -30,6 +30,12 @@ func AppHeaderMiddleware(userPlans map[string]models.UserPlan, next http.Handler
 			utils.Encode(w, http.StatusBadRequest, map[string]string{"error": "missing X-User-Id or X-Plan-Id headers"})
 			return
 		}
+		// The user id names the directory of the user's shards, "." and ".."
+		// would name the directory of all users and its parent.
+		if appHeaders.UserId == "." || appHeaders.UserId == ".." {
+			utils.Encode(w, http.StatusBadRequest, map[string]string{"error": "invalid X-User-Id header"})
+			return
+		}
 		log.Debug().Interface("appHeaders", appHeaders).Msg("AppHeaderMiddleware")
 		// ---------------------------
 		newCtx := context.WithValue(r.Context(), appHeadersKey, appHeaders)
